@@ -119,11 +119,12 @@ def _enc_actions(acts):
 
 class Req(object):
   """One controller-to-switch message and what the specification lets the switch answer."""
-  __slots__ = ("idx", "cls", "mtype", "xid", "raw", "kind", "reply_type", "errors", "err_ok", "check", "answer",
-               "internal", "late", "valid_reply_needed", "invalid")
+  __slots__ = ("idx", "cls", "root", "mtype", "xid", "raw", "kind", "reply_type", "errors", "err_ok", "check", "answer",
+               "internal", "late")
 
-  def __init__(self, idx, cls, raw, kind, reply_type=None, errors=None, err_ok=False, check=None):
+  def __init__(self, idx, cls, raw, kind, reply_type=None, errors=None, err_ok=False, check=None, root=None):
     self.idx, self.cls, self.raw = idx, cls, raw
+    self.root = root or cls       # what the violation keys name: requests that fail for one reason share it
     self.mtype = raw[1]
     self.xid = struct.unpack("!L", raw[4:8])[0]
     self.kind = kind              # "reply": one reply (or, if err_ok, one error); "error": exactly one error out of `errors`;
@@ -175,7 +176,7 @@ class _Run(object):
     self.out.fail(clause, msg, **kw)
 
   def fail_exc(self, e, clause, req, msg):
-    key = exc_key(e, clause=clause, req=req.cls if req else "?")
+    key = exc_key(e, clause=clause, req=req.root if req else "?")
     k = tuple(sorted(key.items()))
     if k in self.seen:
       return
@@ -545,6 +546,7 @@ class _Run(object):
     out_port = op.get("out_port", cb.OFPP_NONE)
     errs, maybe = self.classify_actions(acts, in_flow_mod=True)
     bid, bkind = self.resolve_buf(op.get("buf"))
+    root = None
     if (errs or maybe) and bkind == "live":
       bid, bkind = cb.NO_BUFFER, "none"     # whether a refused message consumes the buffer is open
     is_del = cmd in (cb.OFPFC_DELETE, cb.OFPFC_DELETE_STRICT)
@@ -569,6 +571,7 @@ class _Run(object):
       cls, kind, e = "flow_mod/delete", ("maybe" if (errs or maybe) else "none"), None
     elif bkind not in ("none", "live"):
       cls, kind, e = "flow_mod/buffer-%s" % bkind, "error", E_BUF | errs | (E_UNSUP if errs else set())
+      root = "buffer-not-outstanding"
     elif errs:
       cls, kind, e = "flow_mod/bad-action", "error", errs | E_UNSUP
     elif maybe:
@@ -584,7 +587,7 @@ class _Run(object):
       sh.apply_actions(cb.decode_actions(acts_raw), stored[0], stored[1])
       sh.pool.release(bid)
       self.processed = (stored[0], stored[1])
-    self.add(cls, raw, kind, errors=e)
+    self.add(cls, raw, kind, errors=e, root=root)
 
   def op_packet_out(self, op):
     sh = self.sh
@@ -606,8 +609,10 @@ class _Run(object):
       in_port = stored[1]
     acts_raw = _enc_actions(acts)
     raw = cb.packet_out(x, buffer_id=bid, in_port=in_port, actions=acts_raw, data=data)
+    root = None
     if bkind not in ("none", "live"):
       cls, kind, e = "packet_out/buffer-%s" % bkind, "error", E_BUF | errs
+      root = "buffer-not-outstanding"
     elif bkind == "none" and not data:
       cls, kind, e = "packet_out/nothing-to-send", "maybe", None
     elif errs:
@@ -626,7 +631,7 @@ class _Run(object):
       if stored is not None:
         sh.pool.release(bid)
       self.processed = (frame, in_port)
-    self.add(cls, raw, kind, errors=e)
+    self.add(cls, raw, kind, errors=e, root=root)
 
   def op_stats(self, op):
     sh = self.sh
@@ -658,10 +663,10 @@ class _Run(object):
                reply_type=cb.OFPT_STATS_REPLY, err_ok=True, check=self.chk_stype(t, None))
     elif t == cb.OFPST_VENDOR:
       body = cb.vendor_stats_request_body(op.get("vendor", 0x2320), op.get("body", b""))
-      self.add("stats/vendor", cb.stats_request(x, t, body, flags), "error",
+      self.add("stats/vendor", cb.stats_request(x, t, body, flags), "error", reply_type=cb.OFPT_STATS_REPLY,
                errors={(cb.OFPET_BAD_REQUEST, cb.OFPBRC_BAD_STAT), (cb.OFPET_BAD_REQUEST, cb.OFPBRC_BAD_VENDOR)})
     else:
-      self.add("stats/unknown-type", cb.stats_request(x, t, op.get("body", b""), flags), "error",
+      self.add("stats/unknown-type", cb.stats_request(x, t, op.get("body", b""), flags), "error", reply_type=cb.OFPT_STATS_REPLY,
                errors={(cb.OFPET_BAD_REQUEST, cb.OFPBRC_BAD_STAT)})
 
   def chk_stype(self, t, inner):
@@ -717,7 +722,7 @@ class _Run(object):
     elif o == "echo_reply":
       self.add("echo_reply", cb.echo_reply(x, op.get("body", b"")), "none")
     elif o == "vendor":
-      self.add("vendor", cb.vendor(x, op.get("vendor", 0x2320), op.get("body", b"")), "error",
+      self.add("vendor", cb.vendor(x, op.get("vendor", 0x2320), op.get("body", b"")), "error", reply_type=cb.OFPT_VENDOR,
                errors={(cb.OFPET_BAD_REQUEST, cb.OFPBRC_BAD_VENDOR)})
     elif o == "features":
       self.add("features_request", cb.features_request(x), "reply", reply_type=cb.OFPT_FEATURES_REPLY, check=self.chk_features())
@@ -756,7 +761,7 @@ class _Run(object):
         self.add("queue_get_config", cb.queue_get_config_request(x, port), "reply", reply_type=cb.OFPT_QUEUE_GET_CONFIG_REPLY,
                  err_ok=ANY_QUEUE_ERR, check=self.chk_qgc(port))
       else:
-        self.add("queue_get_config/bad-port", cb.queue_get_config_request(x, port), "error",
+        self.add("queue_get_config/bad-port", cb.queue_get_config_request(x, port), "error", reply_type=cb.OFPT_QUEUE_GET_CONFIG_REPLY,
                  errors={(cb.OFPET_QUEUE_OP_FAILED, cb.OFPQOFC_BAD_PORT)})
     elif o == "unknown":
       self.add("unknown-message-type", cb.message(22 + op["t"] % 234, x, op.get("body", b"")), "error",
@@ -773,7 +778,7 @@ class _Run(object):
 
   # ------------------------------------------------------------------ pairing
   def fits(self, m, r):
-    if m["xid"] != r.xid:
+    if m["xid"] != r.xid or r.internal is not None:
       return False
     if m["type"] == cb.OFPT_ERROR:
       return True
@@ -801,7 +806,7 @@ class _Run(object):
       if m["type"] == cb.OFPT_ERROR:
         # prefer the request whose bytes the error quotes, then one that can be refused at all
         data = m.get("data", b"")
-        open_ = [k for k in range(i, len(reqs)) if reqs[k].answer is None and reqs[k].xid == m["xid"]]
+        open_ = [k for k in range(i, len(reqs)) if reqs[k].answer is None and reqs[k].xid == m["xid"] and reqs[k].internal is None]
         quoted = [k for k in open_ if len(data) >= 8 and reqs[k].raw[:len(data)] == data]
         refusable = [k for k in open_ if reqs[k].kind != "none"]
         for lst in (quoted, refusable, open_):
@@ -825,12 +830,12 @@ class _Run(object):
       dup = [r for r in reqs if r.answer is not None and self.fits(m, r)]
       if dup:
         self.fail("duplicate-response", "a second %s with xid %d arrived; request #%d (%s) was already answered" % (
-            m["name"], m["xid"], dup[0].idx, dup[0].cls), req=dup[0].cls, mtype=m["name"])
+            m["name"], m["xid"], dup[0].idx, dup[0].cls), req=dup[0].root, mtype=m["name"])
       else:
         nxt = [r for r in reqs[i:] if r.answer is None and r.kind in ("reply", "error")]
         if nxt and (m["type"] == nxt[0].reply_type or m["type"] == cb.OFPT_ERROR):
           self.fail("response-xid", "%s with xid %d while the next unanswered request #%d (%s) has xid %d" % (
-              m["name"], m["xid"], nxt[0].idx, nxt[0].cls, nxt[0].xid), req=nxt[0].cls, mtype=m["name"])
+              m["name"], m["xid"], nxt[0].idx, nxt[0].cls, nxt[0].xid), req=nxt[0].root, mtype=m["name"])
           nxt[0].answer = m
           nxt[0].internal = "answered with a wrong xid"
           i = nxt[0].idx + 1
@@ -848,33 +853,41 @@ class _Run(object):
       if r.internal is not None:
         return        # reported with the exception
       if r.kind == "reply":
-        self.fail("no-reply", "request #%d (%s, xid %d) was never answered" % (r.idx, r.cls, r.xid), req=r.cls)
+        self.fail("no-reply", "request #%d (%s, xid %d) was never answered" % (r.idx, r.cls, r.xid), req=r.root)
       elif r.kind == "error":
         self.fail("silent-on-invalid", "request #%d (%s, xid %d) is invalid and OF 1.0 names the error %s, but the switch sent nothing" % (
-            r.idx, r.cls, r.xid, _errs(r.errors)), req=r.cls)
+            r.idx, r.cls, r.xid, _errs(r.errors)), req=r.root)
       return
     if r.late:
-      self.fail("response-order", "the answer to request #%d (%s, xid %d) came after the answer to a later request" % (r.idx, r.cls, r.xid), req=r.cls)
+      self.fail("response-order", "the answer to request #%d (%s, xid %d) came after the answer to a later request" % (r.idx, r.cls, r.xid), req=r.root)
     if m["type"] == cb.OFPT_ERROR:
       code = (m["etype"], m["code"])
       if r.kind == "none":
         self.fail("error-for-valid-request", "request #%d (%s, xid %d) is valid and needs no reply but was answered with error %d/%d" % (
-            r.idx, r.cls, r.xid, code[0], code[1]), req=r.cls)
+            r.idx, r.cls, r.xid, code[0], code[1]), req=r.root)
       elif r.kind == "reply" and (r.err_ok is False or (r.err_ok is not True and code not in r.err_ok)):
         self.fail("error-for-valid-request", "request #%d (%s, xid %d) must be answered with a reply but got error %d/%d" % (
-            r.idx, r.cls, r.xid, code[0], code[1]), req=r.cls)
+            r.idx, r.cls, r.xid, code[0], code[1]), req=r.root)
       elif r.kind == "error" and r.errors is not None and code not in r.errors:
         self.fail("wrong-error", "request #%d (%s, xid %d) was refused with error %d/%d, OF 1.0 names %s" % (
-            r.idx, r.cls, r.xid, code[0], code[1], _errs(r.errors)), req=r.cls, got="%d/%d" % code)
+            r.idx, r.cls, r.xid, code[0], code[1], _errs(r.errors)), req=r.root, got="%d/%d" % code)
       data = m["data"]
       need = min(64, len(r.raw))
-      if len(data) < need or r.raw[:len(data)] != data:
-        self.fail("error-data", "error for request #%d (%s) carries %d bytes of data %s..., expected at least the first %d bytes of the request %s..." % (
-            r.idx, r.cls, len(data), data[:24].hex(), need, r.raw[:24].hex()), req=r.cls)
+      if len(data) < need:
+        self.fail("error-data", "error for request #%d (%s) carries %d bytes of data, OF 1.0 asks for at least the first %d bytes of the request" % (
+            r.idx, r.cls, len(data), need), how="short")
+      elif r.raw[:len(data)] != data:
+        d = [k for k in range(min(len(data), len(r.raw))) if data[k] != r.raw[k]]
+        self.fail("error-data", "error for request #%d (%s) quotes bytes that are not the request's: first difference at offset %d, data %s..., request %s..." % (
+            r.idx, r.cls, d[0] if d else len(r.raw), data[:24].hex(), r.raw[:24].hex()), how="altered")
       return
     # a reply
+    if r.kind == "error":
+      self.fail("reply-to-invalid-request", "request #%d (%s, xid %d) is invalid and OF 1.0 names the error %s, but the switch answered with a %s" % (
+          r.idx, r.cls, r.xid, _errs(r.errors), m["name"]), req=r.root)
+      return
     if r.kind != "reply":
-      self.fail("unexpected-response", "request #%d (%s, xid %d) got a %s" % (r.idx, r.cls, r.xid, m["name"]), req=r.cls, mtype=m["name"])
+      self.fail("unexpected-response", "request #%d (%s, xid %d) got a %s" % (r.idx, r.cls, r.xid, m["name"]), req=r.root, mtype=m["name"])
       return
     if "malformed" in m and m["type"] != cb.OFPT_STATS_REPLY:
       return
